@@ -596,12 +596,19 @@ def emits_comment_first(idx, fi: FuncInfo, helper: str, depth: int = 0) -> Tuple
     """Does the render function (or a local helper it delegates its whole output to) pass
     <model>.comment to `helper` as the first piece of the output?"""
     model = [a.arg for a in fi.node.args.args][0]
+
+    def helper_calls(f: FuncInfo):
+        return [n for n in walk_no_nested(f.node) if isinstance(n, ast.Call) and ((isinstance(n.func, ast.Name) and n.func.id == helper)
+                                                                                  or (isinstance(n.func, ast.Attribute) and n.func.attr == helper))]
+    if not helper_calls(fi):
+        # the comment piece may come from a small fragment helper (`comment_prefix(model)`): read such helpers in place
+        from ..inline import inline_fragments
+        from ..strctx import ANCHOR_HELPERS
+        fi2 = inline_fragments(idx, fi, keep=ANCHOR_HELPERS | {helper})
+        if fi2 is not fi and helper_calls(fi2):
+            fi = fi2
     body = fi.node.body
-    calls = []
-    for n in walk_no_nested(fi.node):
-        if isinstance(n, ast.Call) and ((isinstance(n.func, ast.Name) and n.func.id == helper)
-                                        or (isinstance(n.func, ast.Attribute) and n.func.attr == helper)):
-            calls.append(n)
+    calls = helper_calls(fi)
     good = [c for c in calls if c.args and norm(c.args[0]) == f'{model}.comment']
     if good:
         call = good[0]
@@ -728,6 +735,9 @@ def leftmost(e: ast.AST, call: Optional[ast.AST], name: Optional[str] = None) ->
     while True:
         if isinstance(e, ast.BinOp) and isinstance(e.op, ast.Add):
             e = e.left
+            continue
+        if isinstance(e, ast.JoinedStr) and e.values:
+            e = e.values[0].value if isinstance(e.values[0], ast.FormattedValue) else e.values[0]
             continue
         if isinstance(e, ast.IfExp):
             if call is not None and any(x is call for x in ast.walk(e.body)):
